@@ -107,10 +107,12 @@ def runProbe : Nat → ProbeRunner
       | .ok vs => logEv (.q f vs.length (vs.filter fun v => v.e == e).length)
       | .error k => logEv (.act "query" (some k))
     | .unreg o =>
+      if (AL.find? (← M.get).obs.objs o).isNone then logEv (.act "unreg" (some .obsNotRegistered)) else
       match ← tryW (opObsUnregister o) with
       | .ok _ => logEv (.act "unreg" none)
       | .error k => logEv (.act "unreg" (some k))
     | .reg o =>
+      if (AL.find? (← M.get).obs.objs o).isNone then logEv (.act "reg" (some .obsNotRegistered)) else
       match ← tryW (opObsRegister o) with
       | .ok _ => logEv (.act "reg" none)
       | .error k => logEv (.act "reg" (some k))
